@@ -19,7 +19,6 @@ pi within a tolerance computed here).  Streams (key of the violation in brackets
   [factory]    scat_factory                                      vs arim.scat.scat_factory (recorded constructor calls, and
                                                                     the real objects' class and _scat_kwargs)
 """
-import math
 import warnings
 from concurrent.futures import ThreadPoolExecutor
 
@@ -695,12 +694,24 @@ def _evaluate1(chk, st):
 def run(chk, arim, rng, quick):
     import arim.scat  # noqa: F401
     m = 1 if quick else 10
-    streams = [
-        build_lowlevel(chk, rng, 30 * m),
-        build_interp1d(chk, rng, 120 * m),
-        build_freq(chk, arim, rng, 150 * m),
-    ]
-    streams += BUILD_MORE(chk, arim, rng, m)
+    # the angle kernel is a numba guvectorize(target="parallel"): on arrays of 1-3 angles the thread pool costs ~30 ms per
+    # call on a busy machine; one thread computes the very same values (restored afterwards)
+    try:
+        import numba
+        nthreads = numba.get_num_threads()
+        numba.set_num_threads(1)
+    except Exception:  # noqa: BLE001
+        numba, nthreads = None, None
+    try:
+        streams = [
+            build_lowlevel(chk, rng, 30 * m),
+            build_interp1d(chk, rng, 120 * m),
+            build_freq(chk, arim, rng, 150 * m),
+        ]
+        streams += BUILD_MORE(chk, arim, rng, m)
+    finally:
+        if nthreads is not None:
+            numba.set_num_threads(nthreads)
     import os
     import time
     if os.environ.get("TIE_HIST"):
@@ -895,7 +906,7 @@ def build_init(chk, arim, rng, N):
                 shapes[k] = alt
                 fam = "one shape differs" if len(keys) > 1 else "wrong shape"
             elif u < 0.5:
-                alt = [(nf, n, n + 1), (nf + 1, n, n), (n, n), (nf, n, n, 1), (nf, n + 1, n), (), (nf,), (n, n, nf + 1)][int(rng.integers(0, 8))]
+                alt = [(nf, n, n + 1), (nf + 1, n, n), (n, n), (nf, n, n, 1), (nf, n + 1, n), (), (nf,), (n, n, nf + 1), (nf + 1, n, n), (nf + 2, n, n)][int(rng.integers(0, 10))]
                 shapes = {k: alt for k in keys}
                 fam = "wrong shape"
         fr = [np.float64(1.5), 2.5, np.asarray(3.0)][int(rng.integers(0, 3))] if fs == () else np.zeros(fs)
